@@ -11,7 +11,9 @@ Inductive act :=
 | APanic (v : nat)
 | AMapRH (k : nat)          (* c.Map(ReturnHandler(custom k)): request-scoped return handler *)
 | ASub                      (* a sub-request through the same application (a separate request) *)
-| AWrapRW.                  (* c.MapTo(wrapper, http.ResponseWriter): the writer re-mapped in the request scope; every Write through the
+| AWrapRW
+| AFlush.                   (* c.ResponseWriter().Flush(): commits the status 200 if none was sent, whatever the underlying
+                               writer can do; no body *)                  (* c.MapTo(wrapper, http.ResponseWriter): the writer re-mapped in the request scope; every Write through the
                                wrapper is preceded by a marker Write *)
 
 Inductive handler :=
@@ -110,6 +112,7 @@ Fixpoint exec (l : list act) (s : st) {struct l} : outcome :=
       | AMapRH k => exec l' (set_rh s k)
       | ASub => exec l' s                       (* a separate request: nothing of this one changes *)
       | AWrapRW => exec l' (set_wrapped s)
+      | AFlush => exec l' (w_header 200 s)
       | ANext =>
           match next (log s (NextCall i)) with
           | Done s1 => exec l' (log s1 (NextRet i))
